@@ -42,6 +42,7 @@ type Contract struct {
 	Ensures       []Clause
 	Modifies      []string
 	NotSpawned    string // structural: never the callee of a go statement
+	ChanOpsUnder  *Clause // lock object: every channel send in the function needs its lock held, every close its write lock
 	LoopInv       map[int][]Clause
 	StepLemma     map[int][]Clause
 	LoopMod       map[int][]string
@@ -525,6 +526,14 @@ func (cs *Contracts) parseContractLines(lines []string, file string, pkgPath str
 			cur.MayPanic = true
 		case "uncalled":
 			cur.Uncalled = true
+		case "chan_ops_under":
+			// every send on a channel in this function happens with this object's lock held (in
+			// either mode), every close of a channel with its write lock held
+			cl, err := parseClause(rest, where)
+			if err != nil {
+				return err
+			}
+			cur.ChanOpsUnder = &cl
 		case "not_spawned":
 			// structural: no go statement of the program starts this function (with the reason)
 			cur.NotSpawned = strings.TrimSpace(rest)
